@@ -109,6 +109,83 @@ theorem wrap_add (f : Fmt) (a b : ℤ) : wrap f (a + b) = wrap f (wrap f a + wra
 theorem wrap_sub (f : Fmt) (a b : ℤ) : wrap f (a - b) = wrap f (wrap f a - wrap f b) := wrap_sub_hom f a b
 theorem wrap_mul (f : Fmt) (a b : ℤ) : wrap f (a * b) = wrap f (wrap f a * wrap f b) := wrap_mul_hom f a b
 
+/-! ### a register with fewer fraction bits than the exact result (the fixed-point multiply `s32/16 · s32/16 → s32/16`)
+
+The exact result of `+ - *` is an integer code `p` with `fe` fraction bits; the register has `k` fewer.  What is stored is
+`wrap (ROUND (p / 2^k))` — for every rounding rule the rounded value is an integer function of `p` alone, so no float is
+involved in the specification — and under `floor` (the arithmetic right shift of hardware) it is exactly the bit field
+`k .. k+n_word-1` of the two's-complement image of `p`. -/
+
+/-- the exact result `p·2^-(fr+k)` scaled to the register's `fr` fraction bits is the rational `p / 2^k`. -/
+theorem scale_drop (fr : ℤ) (p : ℤ) (k : ℕ) : scale (scale (p:ℚ) (-(fr + k))) fr = (p:ℚ) / ((2 ^ k : ℕ) : ℚ) := by
+  rw [scale_eq, scale_eq, mul_assoc, ← zpow_add₀ (by norm_num : (2:ℚ) ≠ 0)]
+  have : -(fr + (k:ℤ)) + fr = -(k:ℤ) := by ring
+  rw [this, zpow_neg, zpow_natCast]
+  push_cast
+  rw [div_eq_mul_inv]
+
+/-- floor of `p / 2^k` is the arithmetic right shift `p >>> k` (`Int` floor division). -/
+theorem floor_drop (p : ℤ) (k : ℕ) : ⌊(p:ℚ) / ((2 ^ k : ℕ) : ℚ)⌋ = p / 2 ^ k := by
+  rw [Rat.floor_intCast_div_natCast]; push_cast; rfl
+
+/-- **what the register holds, every rounding rule**: the store of the exact result is `wrap` of the integer obtained by
+rounding the rational `p / 2^k` — in particular it depends on all the bits of `p` (no 53-bit mantissa in between). -/
+theorem register_drop (reg : Fmt) (r : Rounding) (p : ℤ) (k : ℕ) :
+    quantize reg r .wrap (scale (p:ℚ) (-(reg.nfrac + k))) = wrap reg (roundR r ((p:ℚ) / ((2 ^ k : ℕ) : ℚ))) := by
+  unfold quantize ovf
+  rw [scale_drop]
+
+/-- under `floor`: the register holds `p >>> k` reduced to `n_word` bits. -/
+theorem register_drop_floor (reg : Fmt) (p : ℤ) (k : ℕ) :
+    quantize reg .floor .wrap (scale (p:ℚ) (-(reg.nfrac + k))) = wrap reg (p / 2 ^ k) := by
+  rw [register_drop, roundR_floor, floor_drop]
+
+/-- bits `k .. k+n-1` of `p`: shifting then masking is masking the `n+k` low bits then shifting. -/
+theorem shift_mask (p : ℤ) (k n : ℕ) : (p / 2 ^ k) % 2 ^ n = (p % 2 ^ (n + k)) / 2 ^ k := by
+  have hB : (0:ℤ) < 2 ^ k := by positivity
+  have hC : (0:ℤ) < 2 ^ n := by positivity
+  have hBC : (2:ℤ) ^ (n + k) = 2 ^ k * 2 ^ n := by rw [pow_add]; ring
+  rw [hBC]
+  generalize (2:ℤ) ^ k = B at *
+  generalize (2:ℤ) ^ n = C at *
+  have hm0 := Int.emod_nonneg p (ne_of_gt (Int.mul_pos hB hC))
+  have hm1 := Int.emod_lt_of_pos p (Int.mul_pos hB hC)
+  have hp : p = (B * C) * (p / (B * C)) + p % (B * C) := (Int.mul_ediv_add_emod p (B * C)).symm
+  generalize p % (B * C) = m at *
+  generalize p / (B * C) = t at *
+  subst hp
+  have h1 : (B * C * t + m) / B = C * t + m / B := by
+    rw [show B * C * t + m = m + B * (C * t) by ring, Int.add_mul_ediv_left _ _ (ne_of_gt hB)]; ring
+  rw [h1, show C * t + m / B = m / B + C * t by ring, Int.add_mul_emod_self_left]
+  apply Int.emod_eq_of_lt (Int.ediv_nonneg hm0 (le_of_lt hB))
+  exact Int.ediv_lt_of_lt_mul hB (by rw [mul_comm] at hm1; linarith [hm1, mul_comm C B])
+
+/-- unsigned register under floor: exactly the bit field `k .. k+n_word-1` of `p`. -/
+theorem register_drop_floor_unsigned (reg : Fmt) (hs : reg.signed = false) (p : ℤ) (k : ℕ) :
+    quantize reg .floor .wrap (scale (p:ℚ) (-(reg.nfrac + k))) = (p % 2 ^ (reg.nword + k)) / 2 ^ k := by
+  rw [register_drop_floor, wrap_unsigned_emod reg hs, shift_mask]
+
+/-- signed register under floor: the same bit field, reinterpreted in two's complement — bits of `p` above `k + n_word`
+never matter (`p` may be replaced by its low `n_word + k` bits). -/
+theorem register_drop_floor_low_bits (reg : Fmt) (p : ℤ) (k : ℕ) :
+    quantize reg .floor .wrap (scale (p:ℚ) (-(reg.nfrac + k))) = wrap reg ((p % 2 ^ (reg.nword + k)) / 2 ^ k) := by
+  rw [register_drop_floor]
+  have h := shift_mask p k reg.nword
+  unfold wrap
+  simp only [h]
+  have h2 : ((p % 2 ^ (reg.nword + k)) / 2 ^ k) % 2 ^ reg.nword = (p % 2 ^ (reg.nword + k)) / 2 ^ k := by
+    rw [← h]; exact Int.emod_emod_of_dvd _ (dvd_refl _)
+  rw [h2]
+
+/-- the canonical multiply `s32/16 · s32/16 → s32/16` (wrap, floor): codes `a`, `b` give `((a·b) >>> 16)` in 32 bits. -/
+theorem q16_16_multiply (a b : ℤ) :
+    quantize ⟨true, 32, 16⟩ .floor .wrap (valueOf ⟨true, 32, 16⟩ a * valueOf ⟨true, 32, 16⟩ b) = wrap ⟨true, 32, 16⟩ ((a * b) / 2 ^ 16) := by
+  have hv : valueOf ⟨true, 32, 16⟩ a * valueOf ⟨true, 32, 16⟩ b = scale ((a * b : ℤ) : ℚ) (-((16:ℤ) + (16:ℕ))) := by
+    unfold valueOf; simp only [scale_eq]; push_cast
+    rw [show ((-32:ℤ)) = -16 + -16 by norm_num, zpow_add₀ (by norm_num : (2:ℚ) ≠ 0)]; ring
+  rw [hv]
+  exact register_drop_floor ⟨true, 32, 16⟩ (a * b) 16
+
 /-- in-range codes are fixed points. -/
 theorem wrap_id (f : Fmt) (hw : 0 < f.nword) (k : ℤ) (h : f.InRange k) : wrap f k = k := wrap_of_inRange f hw k h
 
@@ -117,5 +194,7 @@ example : wrap ⟨true, 8, 0⟩ 200 = -56 := by decide +kernel
 example : wrap ⟨false, 8, 0⟩ (-1) = 255 := by decide +kernel
 example : wrap ⟨true, 128, 0⟩ (2^127) = -2^127 := by decide +kernel
 example : Spec ⟨true, 8, 0⟩ 200 (-56) := by unfold Spec Fmt.InRange Fmt.lo Fmt.hi; decide +kernel
+/-- the witness of D41: `2147483647 · 1073741825 >>> 16` in 32 bits is 16383 (a float product gives 16384). -/
+example : wrap ⟨true, 32, 16⟩ ((2147483647 * 1073741825) / 2 ^ 16) = 16383 := by decide +kernel
 
 end Fxp.C03
